@@ -18,7 +18,12 @@ Definition text := list tok.
 Inductive extk := EFmt (f : fmtc) | EDat.
 Definition fkey := (nat * extk * bool)%type.
 
-Record world := mk_world { w_files : list (fkey * text); w_streams : list (nat * text) }.
+(* A stream is an object the CALLER owns: besides its text it has a state the caller relies on after
+   the call -- still open, and positioned after the text (so that the next write lands behind it). *)
+Inductive sstate := SOpenAtEnd | SOpenElsewhere | SClosed.
+
+Record world := mk_world { w_files : list (fkey * text); w_streams : list (nat * text);
+                           w_sstate : list (nat * sstate) }.
 
 Inductive mode := MAppend | MTrunc.
 Inductive op :=
@@ -46,15 +51,23 @@ Fixpoint assoc_set {K V} (eqb : K -> K -> bool) (l : list (K * V)) (k : K) (v : 
 
 Definition get_file (w : world) (k : fkey) : text := assoc_get fkey_eqb [] (w_files w) k.
 Definition set_file (w : world) (k : fkey) (t : text) : world :=
-  mk_world (assoc_set fkey_eqb (w_files w) k t) (w_streams w).
+  mk_world (assoc_set fkey_eqb (w_files w) k t) (w_streams w) (w_sstate w).
 Definition get_stream (w : world) (s : nat) : text := assoc_get Nat.eqb [] (w_streams w) s.
 Definition set_stream (w : world) (s : nat) (t : text) : world :=
-  mk_world (w_files w) (assoc_set Nat.eqb (w_streams w) s t).
+  mk_world (w_files w) (assoc_set Nat.eqb (w_streams w) s t) (w_sstate w).
+Definition get_sstate (w : world) (s : nat) : sstate := assoc_get Nat.eqb SOpenAtEnd (w_sstate w) s.
+(* every stream the caller holds is open and positioned after its text *)
+Definition streams_ready (w : world) : bool :=
+  forallb (fun p => match snd p with SOpenAtEnd => true | _ => false end) (w_sstate w).
 
 (* What one call returns: the action of the one-shot matrix, and the text the class-level codec
    consumed (readers) / the identity and version of the object rendered (dumps). *)
 Definition result := (action * option text)%type.
 
+(* No entry point ever changes the STATE of a stream of the caller (`w_sstate` is carried through
+   untouched): a dump that succeeds leaves the stream open behind the text it appended, a call that is
+   REFUSED (unsupported format / parser, no format) leaves the whole world as it was -- in particular
+   the stream it was given stays open, holds what it held, and stays where it was. *)
 Definition step (w : world) (x : op) : world * result :=
   match x with
   | ORewrite k d => (set_file w k [TDoc d], (ANothing, None))
@@ -72,14 +85,18 @@ Definition step (w : world) (x : op) : world * result :=
       end
   end.
 
-(* observation after each step: the result and the whole world (every file, every stream) *)
-Record obs := mk_obs { ob_res : result; ob_files : list text; ob_streams : list text }.
+(* observation after each step: the result and the whole world (every file, every stream with its state),
+   and the number of file handles the library opened during the step and did not close (path sources and
+   path targets belong to the library for the duration of the call only: the specification leaves none) *)
+Record obs := mk_obs { ob_res : result; ob_files : list text; ob_streams : list text;
+                       ob_sstate : list sstate; ob_left_open : nat }.
 
 Fixpoint run (w : world) (p : list op) : list obs :=
   match p with
   | [] => []
   | x :: r => let ws := step w x in
-              mk_obs (snd ws) (map snd (w_files (fst ws))) (map snd (w_streams (fst ws))) :: run (fst ws) r
+              mk_obs (snd ws) (map snd (w_files (fst ws))) (map snd (w_streams (fst ws)))
+                     (map snd (w_sstate (fst ws))) 0 :: run (fst ws) r
   end.
 Fixpoint final (w : world) (p : list op) : world :=
   match p with [] => w | x :: r => final (fst (step w x)) r end.
@@ -98,9 +115,12 @@ Definition text_eqb := list_eqb tok_eqb.
 Definition result_eqb (a b : result) : bool :=
   action_eqb (fst a) (fst b) &&
   match snd a, snd b with Some s, Some t => text_eqb s t | None, None => true | _, _ => false end.
+Definition sstate_eqb (a b : sstate) : bool :=
+  match a, b with SOpenAtEnd, SOpenAtEnd | SOpenElsewhere, SOpenElsewhere | SClosed, SClosed => true | _, _ => false end.
 Definition obs_eqb (a b : obs) : bool :=
   result_eqb (ob_res a) (ob_res b) && list_eqb text_eqb (ob_files a) (ob_files b)
-  && list_eqb text_eqb (ob_streams a) (ob_streams b).
+  && list_eqb text_eqb (ob_streams a) (ob_streams b)
+  && list_eqb sstate_eqb (ob_sstate a) (ob_sstate b) && Nat.eqb (ob_left_open a) (ob_left_open b).
 
 Record seqcase := mk_seqcase { sc_init : world; sc_prog : list op; sc_obs : list obs }.
 Definition check_seq (sc : seqcase) : bool := list_eqb obs_eqb (run (sc_init sc) (sc_prog sc)) (sc_obs sc).
